@@ -105,8 +105,12 @@ class Engine(StmtMixin, CallMixin, ExprMixin, EngineBase):
         # cover: at least one normal return must be reachable (vacuity guard)
         if normal_returns and k.get("cover", True):
             # some normal return must be reachable: instances are alternatives (any one sat suffices)
-            for ctx, pc in normal_returns[:6]:
+            step = max(1, len(normal_returns) // 16)
+            for ctx, pc in normal_returns[::step][:20]:
                 self.obls.append(Obligation(f"{short}/cover[normal-return]", "cover", ctx.prelude(), pc, "false", fn.lineno, short, expect="sat"))
+        for key in k.get("must_call", []):
+            if key not in self.callee_keys:
+                self.obls.append(Obligation(f"{short}/site-exists[{key}]", "site-exists", ["(set-logic ALL)"], [], "false", fn.lineno, short, expect="site"))
         for key in k.get("at_call", {}):
             if key not in self.sites_seen:
                 self.obls.append(Obligation(f"{short}/site-exists[{key}]", "site-exists", ["(set-logic ALL)"], [], "false", fn.lineno, short, expect="site"))
